@@ -1,19 +1,36 @@
 #!/bin/bash
 # usage: trymut.sh <patch.diff> <ID> [tier] [extra run.py args]
 # Applies a seeded change to a scratch worktree of /repo (never to /repo), runs the check against it with all
-# outputs redirected to a scratch dir, prints the verdict and cleans up.
+# outputs redirected to a scratch dir, prints the verdict and cleans up. Worktrees live in reusable slots
+# /tmp/vmut-slot-N (same path => warm build cache); `trymut.sh --clean` removes them.
 set -u
+if [ "${1:-}" = "--clean" ]; then
+  for d in /tmp/vmut-slot-*; do [ -d "$d" ] && git -C /repo worktree remove --force "$d" 2>/dev/null; rm -rf "$d" "$d.lock"; done
+  git -C /repo worktree prune; exit 0
+fi
 PATCH=$(realpath "$1"); ID=$2; TIER=${3:-quick}; shift; shift; shift || true
-WT=$(mktemp -d /tmp/vmut-XXXXXX)
-git -C /repo worktree add --detach -f "$WT" HEAD >/dev/null 2>&1 || { echo "worktree failed"; exit 3; }
-# carry over uncommitted state of /repo (normally none)
-if ! git -C "$WT" apply "$PATCH"; then echo "patch does not apply"; git -C /repo worktree remove --force "$WT"; exit 3; fi
+SLOT=""
+for i in 0 1 2 3 4 5 6 7 8 9 10 11; do
+  exec {fd}>"/tmp/vmut-slot-$i.lock"
+  if flock -n "$fd"; then SLOT=$i; break; fi
+  exec {fd}>&-
+done
+[ -z "$SLOT" ] && { echo "no free slot"; exit 3; }
+WT=/tmp/vmut-slot-$SLOT
+HEADREV=$(git -C /repo rev-parse HEAD)
+if [ ! -d "$WT/.git" ] && [ ! -f "$WT/.git" ]; then
+  rm -rf "$WT"; git -C /repo worktree prune
+  git -C /repo worktree add --detach -f "$WT" "$HEADREV" >/dev/null 2>&1 || { echo "worktree failed"; exit 3; }
+else
+  git -C "$WT" checkout -q -- . ; git -C "$WT" clean -fdq; git -C "$WT" checkout -q --detach "$HEADREV" || { echo "worktree refresh failed"; exit 3; }
+fi
+if ! git -C "$WT" apply "$PATCH"; then echo "patch does not apply"; exit 3; fi
 OUT=$(mktemp -d /tmp/vmut-out-XXXXXX)
 VERIF_REPO="$WT" VERIF_OUTDIR="$OUT" python3 /verif/run.py "$ID" "$TIER" "$@" > "$OUT/stdout.txt" 2>&1
 RC=$?
-grep -E "^(VIOLATION|KNOWN-FINDING|C[0-9]+ (quick|thorough):|run.py:)" "$OUT/stdout.txt" | head -20
-if [ "${VERBOSE:-0}" = 1 ]; then head -60 "$OUT/stdout.txt"; fi
+grep -E "^(VIOLATION|KNOWN-FINDING|C[0-9]+ (quick|thorough):|run.py:)" "$OUT/stdout.txt" | head -8
+if [ "${VERBOSE:-0}" = 1 ]; then head -80 "$OUT/stdout.txt"; fi
 echo "trymut: rc=$RC (1 = detected)"
-git -C /repo worktree remove --force "$WT"
+git -C "$WT" checkout -q -- . ; git -C "$WT" clean -fdq
 rm -rf "$OUT"
 exit $RC
